@@ -102,7 +102,11 @@ def EXHAUSTIVE(tier):
 
 def setup(tier, seed):
     real = Real(clock=False, registry=True)
-    return {'real': real, 'yp': real.engine(), 'exh': (len(universe()) ** 2 if tier == 'thorough' else 0)}
+    yp_cleared = real.engine()
+    yp_cleared.atom('a')
+    yp_cleared.clear()          # after clear() the atom table is new, but ATOM_NIL is the old object
+    return {'real': real, 'yp': real.engine(), 'yp2': real.engine(), 'yp3': yp_cleared,
+            'exh': (len(universe()) ** 2 if tier == 'thorough' else 0)}
 
 
 def check_pair(ctx, stack, t1, t2, rng):
@@ -110,7 +114,13 @@ def check_pair(ctx, stack, t1, t2, rng):
     real = ctx['real']
     E = real.E
     yp = ctx['yp']
+    # the second term is sometimes built by another engine (same names, distinct Atom objects) or by an
+    # engine that was cleared: terms are engine-independent values
+    r_other = rng.random()
+    yp_b = yp if r_other < 0.6 else (ctx['yp2'] if r_other < 0.85 else ctx['yp3'])
     c = {}
+    if yp_b is not yp:
+        c['terms_from_two_engines'] = 1
     # reference: apply the stack, then the pair
     s = {}
     for a, b in stack:
@@ -149,7 +159,7 @@ def check_pair(ctx, stack, t1, t2, rng):
             pre = snap_real(E, robs)
             if pre != exp_pre:
                 return ('prestate', {'expected': exp_pre, 'got': pre})
-            rx, ry = build_real(yp, x, vmap), build_real(yp, y, vmap)
+            rx, ry = build_real(yp, x, vmap), build_real(yp_b, y, vmap)
             g = iter(E.unify(rx, ry))
             yields = 0
             at = None
